@@ -24,6 +24,13 @@ Proof.
     rewrite <- IH, <- fsum_add. apply fsum_ext. intros i _. reflexivity.
 Qed.
 
+Lemma qsum_scale_r (A : Type) (f : A -> Q) (c : Q) (l : list A) :
+  qsum (map f l) * c == qsum (map (fun x => f x * c) l).
+Proof.
+  induction l as [|a l IH]; cbn [map qsum fold_right]; [ring|].
+  change (fold_right Qplus 0 ?x) with (qsum x) in *. rewrite <- IH. ring.
+Qed.
+
 Lemma fsum_pick n a (g : nat -> Q) : (a < n)%nat ->
   fsum n (fun j => if Nat.eqb a j then g j else 0) == g a.
 Proof.
@@ -105,16 +112,8 @@ Proof.
   transitivity (fsum n (fun j => qsum (map (fun p => qsum (map (fun q =>
       (if Nat.eqb (nth p (s_nums sl) 0%nat) i && Nat.eqb (nth q (s_nums sl) 0%nat) j
        then filtered (entry (s_k sl) p q) else 0) * uget u j) (seq 0 6))) (seq 0 6)))).
-  { apply fsum_ext. intros j _.
-    set (ds := s_nums sl). set (k := s_k sl).
-    generalize (seq 0 6) at 1 3. intros l1.
-    induction l1 as [|p l1 IH]; cbn [map qsum fold_right]; [ring|].
-    change (fold_right Qplus 0 ?x) with (qsum x) in *. rewrite <- IH.
-    assert (G : forall l2, qsum (map (fun q => if Nat.eqb (nth p ds 0%nat) i && Nat.eqb (nth q ds 0%nat) j then filtered (entry k p q) else 0) l2) * uget u j
-                == qsum (map (fun q => (if Nat.eqb (nth p ds 0%nat) i && Nat.eqb (nth q ds 0%nat) j then filtered (entry k p q) else 0) * uget u j) l2)).
-    { induction l2 as [|q l2 IH2]; cbn [map qsum fold_right]; [ring|].
-      change (fold_right Qplus 0 ?x) with (qsum x) in *. rewrite <- IH2. ring. }
-    rewrite <- G. ring. }
+  { apply fsum_ext. intros j _. rewrite qsum_scale_r. apply qsum_ext. intros p.
+    rewrite qsum_scale_r. reflexivity. }
   rewrite fsum_qsum_swap. apply qsum_ext_in. intros p Hp.
   rewrite fsum_qsum_swap.
   destruct (Nat.eqb (nth p (s_nums sl) 0%nat) i) eqn:Ep; cbn [andb].
@@ -143,4 +142,147 @@ Proof.
     rewrite fraw_at_app, <- IH by assumption. rewrite <- (slice_row_times n u sl i H1), <- fsum_add.
     apply fsum_ext. intros j _. rewrite kraw_at_app. unfold s_contribs at 1.
     rewrite slice_contribs_placed. fold (s_k sl). fold (s_nums sl). ring.
+Qed.
+
+(* ---------- from the system handed to the solver to its rows before the supports ---------- *)
+
+Lemma fold_left_plus_fsum (g : nat -> Q) : forall l a,
+  fold_left (fun acc j => acc + g j) l a == a + fold_right (fun j acc => g j + acc) 0 l.
+Proof.
+  induction l as [|x l IH]; intros a; cbn [fold_left fold_right]; [ring|]. rewrite IH. ring.
+Qed.
+
+Lemma row_times_fsum (cs : list (nat * nat * Q)) sup n (u : nat -> Q) i :
+  row_times cs sup n u i == fsum n (fun j => k_final cs sup i j * u j).
+Proof.
+  unfold row_times, fsum. cbn [nadd nmul n0 QOps].
+  rewrite (fold_left_plus_fsum (fun j => k_final cs sup i j * u j)). ring.
+Qed.
+
+(* u solves the system the model hands to the solver (C17: K = k_final, f = f_final) *)
+Definition solves (n : nat) (bars : list (pbar Q)) (sup : list nat) (u : list Q) : Prop :=
+  forall i, (i < n)%nat ->
+    row_times (all_contribs bars) sup n (uget u) i == f_final (all_fterms bars) sup i.
+
+Lemma delta_diag i : delta (F:=Q) i i = 1.
+Proof. unfold delta. rewrite Nat.eqb_refl. reflexivity. Qed.
+
+(* supported numbers: the solution is exactly zero there *)
+Lemma solves_supported n bars sup u i : solves n bars sup u -> (i < n)%nat ->
+  is_supported sup i = true -> uget u i == 0.
+Proof.
+  intros Hs Hi Hsup. specialize (Hs i Hi). rewrite row_times_fsum in Hs.
+  unfold f_final in Hs. rewrite Hsup in Hs. cbn [n0 QOps] in Hs. rewrite <- Hs.
+  rewrite <- (fsum_delta n i (uget u) Hi). apply fsum_ext. intros j _.
+  unfold k_final. rewrite Hsup. cbn [orb]. unfold delta. cbn [n0 n1 QOps].
+  destruct (Nat.eqb i j); ring.
+Qed.
+
+Lemma is_supported_neq sup i j : is_supported sup i = false -> is_supported sup j = true -> Nat.eqb i j = false.
+Proof.
+  intros Hi Hj. destruct (Nat.eqb_spec i j) as [->|]; [congruence | reflexivity].
+Qed.
+
+(* every other equation with at least one stiffness term: the element forces at that number
+   balance the nodal loads assembled there *)
+Theorem row_is_equilibrium n bars sup u i :
+  Forall (nums_below n) (all_slices bars) -> solves n bars sup u -> (i < n)%nat ->
+  is_supported sup i = false -> row_empty (all_contribs bars) i = false ->
+  fraw_at (k_terms u bars) i == fraw_at (all_fterms bars) i.
+Proof.
+  intros Hn Hs Hi Hsup Hrow. pose proof (Hs i Hi) as Hrowi. rewrite row_times_fsum in Hrowi.
+  unfold f_final in Hrowi. rewrite Hsup in Hrowi. rewrite <- Hrowi.
+  rewrite <- (raw_row_is_element_forces n u bars i Hn).
+  apply fsum_ext. intros j Hj. unfold k_final. rewrite Hsup, Hrow. cbn [orb].
+  destruct (is_supported sup j) eqn:Ej.
+  - rewrite (solves_supported n bars sup u j Hs Hj Ej). ring.
+  - reflexivity.
+Qed.
+
+(* an equation without any stiffness term (a number no finite element refers to) *)
+Lemma row_empty_trivial n bars sup u i : solves n bars sup u -> (i < n)%nat ->
+  is_supported sup i = false -> row_empty (all_contribs bars) i = true ->
+  uget u i == fraw_at (all_fterms bars) i.
+Proof.
+  intros Hs Hi Hsup Hrow. specialize (Hs i Hi). rewrite row_times_fsum in Hs.
+  unfold f_final in Hs. rewrite Hsup in Hs. rewrite <- Hs.
+  rewrite <- (fsum_delta n i (uget u) Hi). apply fsum_ext. intros j _.
+  unfold k_final. rewrite Hsup, Hrow. cbn [orb].
+  destruct (is_supported sup j); unfold delta; cbn [n0 n1 QOps]; destruct (Nat.eqb i j); ring.
+Qed.
+
+(* ---------- where a number occurs ---------- *)
+
+Lemma fraw_at_notin (l : list (nat * Q)) i : (forall x, In x l -> fst x <> i) -> fraw_at l i == 0.
+Proof.
+  induction l as [|x l IH]; intros H; [apply fraw_at_nil|].
+  rewrite fraw_at_cons. destruct (Nat.eqb_spec (fst x) i) as [E|_].
+  - exfalso. exact (H x (or_introl eq_refl) E).
+  - rewrite IH; [ring|]. intros y Hy. apply H. right. exact Hy.
+Qed.
+
+Fixpoint chain_slices (b : bar Q) (nds : list (pnode Q * dof3)) : list slice :=
+  match nds with
+  | [] => []
+  | x :: rest =>
+    match rest with
+    | [] => []
+    | y :: _ => {| s_b := b; s_na := fst x; s_nb := fst y; s_da := snd x; s_db := snd y |} :: chain_slices b rest
+    end
+  end.
+
+Lemma slices_from_chain b : forall rest na da, slices_from b na da rest = chain_slices b ((na, da) :: rest).
+Proof.
+  induction rest as [|[nb db] rest IH]; intros na da; [reflexivity|].
+  cbn [slices_from]. rewrite IH. reflexivity.
+Qed.
+Lemma bar_slices_chain p : bar_slices p = chain_slices (pb_bar p) (combine (pb_nodes p) (pb_dofs p)).
+Proof.
+  unfold bar_slices. destruct (combine (pb_nodes p) (pb_dofs p)) as [|[na da] rest]; [reflexivity|].
+  apply slices_from_chain.
+Qed.
+
+Lemma chain_slices_app b : forall P x S,
+  chain_slices b (P ++ x :: S) = chain_slices b (P ++ [x]) ++ chain_slices b (x :: S).
+Proof.
+  induction P as [|a P IH]; intros x S; [reflexivity|].
+  destruct P as [|a' P'].
+  - cbn [app chain_slices]. reflexivity.
+  - change ((a :: a' :: P') ++ x :: S) with (a :: (a' :: P') ++ x :: S).
+    change ((a :: a' :: P') ++ [x]) with (a :: (a' :: P') ++ [x]).
+    specialize (IH x S).
+    change (chain_slices b (a :: (a' :: P') ++ x :: S)) with
+      ({| s_b := b; s_na := fst a; s_nb := fst a'; s_da := snd a; s_db := snd a' |} :: chain_slices b ((a' :: P') ++ x :: S)).
+    change (chain_slices b (a :: (a' :: P') ++ [x])) with
+      ({| s_b := b; s_na := fst a; s_nb := fst a'; s_da := snd a; s_db := snd a' |} :: chain_slices b ((a' :: P') ++ [x])).
+    rewrite IH. reflexivity.
+Qed.
+
+Definition nds_numbers (nds : list (pnode Q * dof3)) : list nat := flat_map (fun x => d3_list (snd x)) nds.
+
+Lemma chain_slices_numbers b : forall nds sl, In sl (chain_slices b nds) ->
+  incl (s_nums sl) (nds_numbers nds).
+Proof.
+  induction nds as [|x rest IH]; intros sl H; [destruct H|].
+  destruct rest as [|y rest']; [destruct H|].
+  cbn [chain_slices] in H. destruct H as [<-|H].
+  - unfold s_nums, slice_numbers, nds_numbers. cbn [s_da s_db flat_map].
+    intros d Hd. apply in_app_or in Hd. apply in_or_app. destruct Hd as [Hd|Hd]; [left; exact Hd|].
+    right. apply in_or_app. left. exact Hd.
+  - intros d Hd. unfold nds_numbers. cbn [flat_map]. apply in_or_app. right. exact (IH sl H d Hd).
+Qed.
+
+Lemma s_fterms_numbers u sl : map fst (s_fterms u sl) = s_nums sl.
+Proof.
+  unfold s_fterms. rewrite map_map. cbn [fst]. unfold s_nums, slice_numbers, d3_list.
+  destruct (s_da sl) as [[a b] c], (s_db sl) as [[d e] f]. reflexivity.
+Qed.
+
+Lemma fraw_chain_notin u b nds i : ~ In i (nds_numbers nds) ->
+  fraw_at (flat_map (s_fterms u) (chain_slices b nds)) i == 0.
+Proof.
+  intros Hi. apply fraw_at_notin. intros x Hx E. apply Hi.
+  apply in_flat_map in Hx as (sl & Hsl & Hx).
+  apply (chain_slices_numbers b nds sl Hsl).
+  rewrite <- s_fterms_numbers with (u := u). rewrite <- E. apply in_map. exact Hx.
 Qed.
